@@ -15,6 +15,21 @@
 #include <orc/orcmmx.h>
 
 #include <orc/orcx86insn.h>
+#include <orc/orcinternal.h>
+
+/* longest x86 instruction (15 bytes) plus the longest alignment padding */
+#define ORC_X86_MAX_OUTPUT_LENGTH 32
+
+static int
+orc_x86_code_buffer_is_full (OrcCompiler *p)
+{
+  if (p->codeptr - p->code >
+      ORC_COMPILER_CODE_BUFFER_SIZE - ORC_X86_MAX_OUTPUT_LENGTH) {
+    orc_compiler_error (p, "generated code does not fit the code buffer");
+    return TRUE;
+  }
+  return FALSE;
+}
 
 
 #define ORC_VEX_3_BIT 0xC4
@@ -1697,6 +1712,8 @@ orc_x86_recalc_offsets (OrcCompiler *p)
 
     xinsn = ((OrcX86Insn *)p->output_insns) + i;
 
+    if (orc_x86_code_buffer_is_full (p)) break;
+
     xinsn->code_offset = p->codeptr - p->code;
 
     ptr = p->codeptr;
@@ -1791,6 +1808,8 @@ orc_x86_output_insns (OrcCompiler *p)
 
   for(i=0;i<p->n_output_insns;i++){
     xinsn = ((OrcX86Insn *)p->output_insns) + i;
+
+    if (orc_x86_code_buffer_is_full (p)) return;
 
     orc_x86_insn_output_asm (p, xinsn);
 
